@@ -233,8 +233,66 @@ fn partners64(r: &mut Rng, v: u64) -> [u64; 5] {
     [v, v.swap_bytes(), v.wrapping_add(1), v.wrapping_sub(1), r.next()]
 }
 
+/// The FIRST endian operation of a fresh process (`first=k`): wrappers that were not made by
+/// `From` (typed views of wire bytes, objects read from guest memory or from a stream) must convert
+/// correctly even when nothing else has used the endian types in this process yet.
+fn first_operation(k: u64) {
+    let v32 = 0x1122_3344u32;
+    let v64 = 0x0102_0304_0506_0708u64;
+    let v16 = 0xa1b2u16;
+    #[repr(align(8))]
+    struct Al([u8; 8]);
+    let ok = match k {
+        0 => {
+            let b = Al([0x44, 0x33, 0x22, 0x11, 0, 0, 0, 0]);
+            Le32::from_slice(&b.0[..4]).map(|w| w.to_native()) == Some(v32)
+        }
+        1 => {
+            let b = Al([0x11, 0x22, 0x33, 0x44, 0, 0, 0, 0]);
+            Be32::from_slice(&b.0[..4]).map(|w| w.to_native()) == Some(v32)
+        }
+        2 => {
+            let gm = GuestMemoryMmap::<()>::from_ranges(&[(GuestAddress(0x1000), 0x1000)]).unwrap();
+            gm.write_slice(&v64.to_le_bytes(), GuestAddress(0x1008)).unwrap();
+            gm.read_obj::<Le64>(GuestAddress(0x1008)).map(|w| w.to_native()).ok() == Some(v64)
+        }
+        3 => {
+            let b = Al([0xb2, 0xa1, 0, 0, 0, 0, 0, 0]);
+            Le16::from_slice(&b.0[..2]).map(|w| {
+                let n: u16 = (*w).into();
+                n
+            }) == Some(v16)
+        }
+        4 => Be64::read_exact_from(&v64.to_be_bytes()[..]).map(|w| w.to_native()).ok() == Some(v64),
+        5 => {
+            let b = Al((v64 as usize).to_le_bytes());
+            LeSize::from_slice(&b.0[..]).map(|w| w.to_native()) == Some(v64 as usize)
+        }
+        6 => {
+            let b = Al([0x11, 0x22, 0x33, 0x44, 0, 0, 0, 0]);
+            Be32::from_slice(&b.0[..4]).map(|w| *w == v32 && v32 == *w) == Some(true)
+        }
+        7 => {
+            let b = Al((v64).to_be_bytes());
+            BeSize::from_slice(&b.0[..]).map(|w| w.to_native()) == Some(v64 as usize)
+        }
+        _ => Le32::from(v32).to_native() == v32 && Be16::from(v16).as_slice() == &v16.to_be_bytes()[..],
+    };
+    if !ok {
+        out::viol(&format!("C20/first-operation-of-the-process/{}", ["Le32::from_slice.to_native", "Be32::from_slice.to_native", "read_obj<Le64>.to_native", "Le16::from_slice.into", "Be64::read_exact_from.to_native", "LeSize::from_slice.to_native", "Be32::from_slice ==", "BeSize::from_slice.to_native", "From"][k.min(8) as usize]), J::Null);
+    }
+    out::key(&format!("first-operation|{}", k.min(8)), true);
+    out::eval(1);
+}
+
 pub fn run(args: &Args) {
     out::set_quiet_cases(true);
+    if args.flag("first") {
+        first_operation(args.u64("first", 0));
+        if args.flag("onlyfirst") {
+            return;
+        }
+    }
     let thorough = args.str("tier", "quick") == "thorough";
     // layout
     macro_rules! layout {
